@@ -46,6 +46,7 @@ def scenarios(rep, tier, seed):
         scn["allow_asymmetric"] = True
         scn["Q"] = scn["Q"] + list(scn["I_train"][:3])
         scns.append(scn)
+    scns += S.extreme_unit_scenarios(random.Random(seed * 1000003 + 303), 120 if thorough else 30, nq=6)
     return scns
 
 
